@@ -238,6 +238,7 @@ _c18 = [J("failsafehttp", "ZZ_H18a_RetryableStatus", note="status code symbolic 
         J("failsafehttp", "ZZ_H18b_RetryAfter", note="status symbolic x 9 Retry-After header shapes through the real DelayFunc"),
         J("failsafehttp", "ZZ_H18d_RetryAfterScheduled", note="500, then 429/503 with Retry-After n, then 200 through the real retry policy: scheduled wait >= n seconds, taken from the attempt that just failed"),
         J("failsafehttp", "ZZ_H18e_DoRequest", preempt=0, race=True, labels=["http:", "http-body:"], note="doRequest (core of RoundTripper and Request) over a stub transport: 0-2 retryable responses then 200; body kinds nil/*bytes.Buffer/*bytes.Reader/ReadSeeker/plain Reader with <=2 symbolic bytes; caller ctx background/with value/cancellable; executor with or without its own context"),
+        J("failsafehttp", "ZZ_H18g_HedgedBody", solver=INT, preempt=1, race=True, labels=["http:"], note="doRequest under a hedge policy (delay symbolic): two attempts read their 3-byte symbolic bodies interleaved; body kinds *bytes.Buffer/*bytes.Reader/plain Reader/ReadSeeker; P=1"),
         J("failsafegrpc", "ZZ_H18f_GrpcInterceptors", preempt=0, race=True, labels=["grpc:"], note="unary client and server interceptors with stub invoker/handler: 17 status codes + a non-status error on the first attempt, adapter retry policy (max 1 retry), executor with or without its own context; real grpc/status and grpc/codes interpreted"),
         J("internal/util", "ZZ_H18c_MergeContexts", preempt=1, race=True, labels=["adapter-ctx:"], note="caller ctx in {Background,TODO,cancellable,with value,with deadline(symbolic)} x execution ctx in {Background, cancellable}; who ends first; P=1")]
 _c18t = _c18[:-1] + [J("internal/util", "ZZ_H18c_MergeContexts", preempt=3, race=True, labels=["adapter-ctx:"], note="P=3")]
